@@ -364,12 +364,13 @@ func (w *Walker) condFailGuard(ev *Event, subs []string, rejectWhen bool, condTe
 // follows conjunctions/disjunctions exactly: `if U && (A || B) { reject }`
 // guards a sink only if the sink's own path condition implies (A || B).
 type guardAlt struct {
-	Value bool
-	Subs  []string
+	Value  bool
+	Subs   []string
+	Suffix string // optional: the atom's text must end with this
 }
 
 func (w *Walker) pathGuard(fr *Frame, site ssa.Instruction, value bool, subs ...string) (string, bool) {
-	return w.pathGuardAny(fr, site, guardAlt{value, subs})
+	return w.pathGuardAny(fr, site, guardAlt{Value: value, Subs: subs})
 }
 
 // pathGuardAny: every feasible path decides at least one of the alternatives.
@@ -386,7 +387,7 @@ func (w *Walker) pathGuardAny(fr *Frame, site ssa.Instruction, alts ...guardAlt)
 					found := false
 					for k, v := range env {
 						for _, a := range alts {
-							match := v == a.Value
+							match := v == a.Value && strings.HasSuffix(k, a.Suffix)
 							for _, s := range a.Subs {
 								if !strings.Contains(k, s) {
 									match = false
